@@ -201,6 +201,15 @@ MarkStale(price) ==
 
 Mark(price, newer) == IF newer THEN MarkNewer(price) ELSE MarkStale(price)
 
+\* MarkNoPrice: the engine processed a market event that leaves the position unmarked - the data
+\* state yields no price after it (a candle, a liquidation, a one-sided or empty top-of-book before
+\* any public trade), or no position is open.  For the position it is a stutter: side, size,
+\* realised PnL, fees, fill ids AND the estimate stay as they are, and no closed record is emitted
+\* (InstrumentState::update_from_market returns early).
+MarkNoPrice ==
+    /\ last' = Ev("Mark", "NoPrice", "", Zero, Zero, Zero, 0, 0)
+    /\ UNCHANGED <<pos, exited, net, cash, fees, nfill, fresh>>
+
 (***************************************************************************)
 (* The bounded model.  Every arm is a separately named action so that the  *)
 (* coverage of TLC shows it was taken.                                     *)
@@ -219,7 +228,9 @@ DoFlip     == CanFill /\ \E a \in Args : FillFlip(a[1], R(a[2]), R(a[3]), R(a[4]
 DoMarkNewer == \E m \in MARK : MarkNewer(R(m))
 DoMarkStale == \E m \in MARK : MarkStale(R(m))
 
-Next == DoOpen \/ DoIncrease \/ DoReduce \/ DoClose \/ DoFlip \/ DoMarkNewer \/ DoMarkStale
+DoMarkNoPrice == MarkNoPrice
+
+Next == DoOpen \/ DoIncrease \/ DoReduce \/ DoClose \/ DoFlip \/ DoMarkNewer \/ DoMarkStale \/ DoMarkNoPrice
 Spec == Init /\ [][Next]_vars
 
 (***************************************************************************)
@@ -306,7 +317,7 @@ QmaxAvg == [][QmaxAvgStep]_vars
 \* instrument's price - except in the one open case (MarkStale while the estimate stems from a fill)
 FreshUnrealStep ==
     /\ (last'.a = "Fill" /\ IsOpen(pos')) => pos'.unreal = Estimate(pos', last'.p)
-    /\ last'.a = "Mark" =>
+    /\ (last'.a = "Mark" /\ last'.arm # "NoPrice") =>
           /\ IsOpen(pos')
           /\ LET est == Estimate(pos', last'.p) IN
                IF last'.arm = "Newer" \/ fresh # "fill"
@@ -320,5 +331,11 @@ MarkOnlyUnrealStep ==
                         /\ exited' = exited /\ net' = net /\ cash' = cash /\ fees' = fees
 MarkOnlyUnreal == [][MarkOnlyUnrealStep]_vars
 \* every step formula at once (re-evaluated on recorded implementation traces by Trace_Position)
-StepProps == ExitIffStep /\ IdsStep /\ QmaxAvgStep /\ FreshUnrealStep /\ MarkOnlyUnrealStep
+\* a market event without a price (or without a position) is a stutter for the position
+NoPriceStutterStep ==
+    (last'.a = "Mark" /\ last'.arm = "NoPrice") =>
+        /\ pos' = pos /\ exited' = exited /\ net' = net /\ cash' = cash /\ fees' = fees
+NoPriceStutter == [][NoPriceStutterStep]_vars
+
+StepProps == ExitIffStep /\ IdsStep /\ QmaxAvgStep /\ FreshUnrealStep /\ MarkOnlyUnrealStep /\ NoPriceStutterStep
 =============================================================================
